@@ -239,6 +239,18 @@ def unaryCheck (op : CmpOp) (opNot inverse : Bool) (v : QR) : Outcome Bool :=
   | .ok b => .ok ((b != opNot) != inverse)
   | e => e
 
+/-- the `empty` test on a query that ends in a filter or is a bare variable, per member of a
+    non-empty result set (eval.rs:204-242): a resolved value counts as "empty" iff it is `null`,
+    an unresolved one counts as empty; `not empty` and the prefix `not` each invert -/
+def emptyExprCheck (opNot inverse : Bool) (v : QR) : Bool :=
+  let base := match v with
+    | .literal res | .resolved res => res.isNull
+    | .unresolved _ => true
+  (base != opNot) != inverse
+
+/-- … and on an EMPTY result set (eval.rs:272-295): `empty` holds -/
+def emptyExprNoValue (opNot inverse : Bool) : Bool := (true != opNot) != inverse
+
 /-- result of evaluating a clause's values -/
 inductive EvaluationResult where
   | emptyQueryResult (s : Status)
@@ -822,17 +834,16 @@ def unaryOperation (env : Env) (fuel : Nat) (q : List QueryPart) (op : CmpOp) (o
     if emptyOnExpr && op == .empty then
       if !lhs.isEmpty then do
         let rs ← lhs.mapM fun each => do
-          let (result, st) : QR × Bool := match each with
-            | .literal res | .resolved res =>
-              (QR.resolved res, if opNot then !res.isNull else res.isNull)
-            | .unresolved ur => (QR.unresolved ur, !opNot)
-          let st := if inverse then !st else st
+          let result : QR := match each with
+            | .literal res | .resolved res => QR.resolved res
+            | .unresolved ur => QR.unresolved ur
+          let st := emptyExprCheck opNot inverse each
           if st then emit (.clauseValueCheck .success)
           else emit (.clauseValueCheck (.unary result op opNot msg))
           pure (result, st)
         pure (.queryValueResult rs)
       else do
-        let result := (!opNot) != inverse
+        let result := emptyExprNoValue opNot inverse
         if result then emit (.clauseValueCheck .success)
         else emit (.clauseValueCheck (.noValueForEmptyCheck msg))
         pure (.emptyQueryResult (boolStatus result))
